@@ -82,10 +82,33 @@ func execOne(t *testing.T, pr *Prop, seed uint64, tier string, replay *Plan) (*P
 		p = pr.Gen(seed, tier)
 	}
 	p.SortActions()
+	gcoff := os.Getenv("VERIF_GCOFF") != ""
+	if gcoff {
+		debug.SetGCPercent(-1)
+	}
 	r := RunPlan(t, p)
+	if gcoff {
+		debug.SetGCPercent(400)
+		runtime.GC()
+	}
 	v := &Verdict{}
 	if r.InfraErr == "" && pr.Check != nil {
 		v = pr.Check(p, r)
+		// An oracle is a function of the recorded history: evaluate it again and
+		// demand the same findings (always when it found something; on every run
+		// under VERIF_ORACLE_REPEAT, which the self-test sets).
+		if n := envInt("VERIF_ORACLE_REPEAT", 0); n > 0 || len(v.Violations) > 0 {
+			if n < 2 {
+				n = 2
+			}
+			for i := 0; i < n; i++ {
+				if a, b := violKey(v), violKey(pr.Check(p, r)); a != b {
+					r.InfraErr = "oracle not a function of the history: " + a + " vs " + b
+					v = &Verdict{}
+					break
+				}
+			}
+		}
 	}
 	// merge online findings
 	v.Violations = append(append([]Violation(nil), r.Online.Violations...), v.Violations...)
@@ -95,11 +118,24 @@ func execOne(t *testing.T, pr *Prop, seed uint64, tier string, replay *Plan) (*P
 	return p, r, v
 }
 
+func violKey(v *Verdict) string {
+	var ks []string
+	for _, x := range v.Violations {
+		ks = append(ks, x.Sig+"|"+x.Msg)
+	}
+	sort.Strings(ks)
+	return strings.Join(ks, " ;; ")
+}
+
 func record(pr *Prop, seed uint64, p *Plan, r *RunResult, v *Verdict) *RunRecord {
 	rec := &RunRecord{Prop: pr.ID, Seed: seed, Violations: v.Violations, Obligations: v.Obligations, RealMs: r.RealMs, Infra: r.InfraErr}
 	if r.H != nil {
 		rec.Hash = r.H.Hash()
 		rec.Shape = r.H.Shape()
+		rec.Fired = map[string]int{}
+		for k, n := range r.H.Fired {
+			rec.Fired[k] = n
+		}
 		if p != nil {
 			// the abstract trace also covers the plan's own steps (kind and instance) and which fault kinds fired
 			var sb strings.Builder
@@ -117,10 +153,6 @@ func record(pr *Prop, seed uint64, p *Plan, r *RunResult, v *Verdict) *RunRecord
 				sb.WriteString(ck)
 			}
 			rec.Shape = shortHash(sb.String())
-		}
-		rec.Fired = map[string]int{}
-		for k, n := range r.H.Fired {
-			rec.Fired[k] = n
 		}
 		for k, n := range r.FSFired {
 			rec.Fired["fs:"+k] += n
@@ -349,6 +381,7 @@ func workerReplay(t *testing.T) {
 	p, r, v := execOne(t, pr, rf.Seed, rf.Tier, rf.Plan)
 	rec := record(pr, rf.Seed, p, r, v)
 	b, _ := json.Marshal(rec)
+	TraceBuf.Flush()
 	fmt.Println("RECORD " + string(b))
 	if os.Getenv("VERIF_VERBOSE") != "" && r.H != nil {
 		for _, l := range r.H.Canon() {
